@@ -107,7 +107,7 @@ func checkCase(c *Case) error {
 	data := c.Data.Get(spec)
 	c.obs.dataLen = len(data)
 
-	enc, _, _, err := fg.Encode(spec.Filter(), v, data, c.Chunk)
+	enc, _, parms, err := fg.Encode(spec.Filter(), v, data, c.Chunk)
 	var rej *fg.ErrRejected
 	if errors.As(err, &rej) {
 		c.obs.rejected = true
@@ -131,6 +131,14 @@ func checkCase(c *Case) error {
 	}
 
 	e := spec.Effective(v)
+	if e.Kind == fg.LZW {
+		// the independent decoders are configured from what Info wrote, as
+		// any other PDF consumer would be: /EarlyChange defaults to 1
+		e.OffByOne = true
+		if x, ok := parms["EarlyChange"].(pdf.Integer); ok && x == 0 {
+			e.OffByOne = false
+		}
+	}
 	switch e.Kind {
 	case fg.ASCII85:
 		got, err := codecs.ASCII85Decode(enc)
